@@ -50,6 +50,8 @@ func checkC09(c *Ctx) {
 	debugSites(c, ops)
 	runEP(c.U, r, "EP/sink", ops, func(s *OpSite) bool { return !c.U.isCtl(s.Fn) })
 	c.controlsEP()
+	// "nothing panics": the write path never dereferences state that only a reader has
+	runNilState(c, "NS", "writer")
 	r.Analysed["call_sites_touching_sink"] = len(ops.Sites)
 	for _, b := range ops.Beliefs {
 		r.ok("EP/sink/belief", b[:indexOr(b, " at ")], "", b)
@@ -59,7 +61,22 @@ func checkC09(c *Ctx) {
 	r.floor("EP/sink/primitive", 3+n, "WritePageHeader, Footer x2, RequiredField.DoWrite, OptionalField.DoWrite + at least one write of the magic per generated package")
 	r.floor("EP/sink/param-dynamic", n, "opt(p) in newParquetWriter per generated package")
 	r.floor("EP/sink/derived", 1+3*n, "DoWrite->WritePageHeader x2; NewParquetWriter, Write x2, Close per generated package")
-	r.floor("EP/sink/belief", n, "Add -> newParquetWriter per generated package")
+	// one "cannot operate" belief per package whose Add builds the next page's writer through the constructor (a
+	// struct literal there has no error to ignore)
+	nb := 0
+	for _, p := range c.U.TC {
+		add, inner := c.U.Func(p, "ParquetWriter.Add"), roleFunc(c.U, p, "writerInner")
+		if add == nil || inner == nil {
+			continue
+		}
+		for _, g := range unitFns(c.U, add) {
+			if g != inner && callsDirectly(g, inner) {
+				nb++
+				break
+			}
+		}
+	}
+	r.floor("EP/sink/belief", nb, "Add -> newParquetWriter per generated package that creates pages that way")
 	r.assume("io.Writer contract: a failed write returns a non-nil error (partial writes with nil error are outside the contract)")
 	r.assume("the sink does not flow through reflection or unsafe (ND rule of C13 excludes both in the universe)")
 	r.assume("opaque callees (encoding/binary.Write) return the writer's error")
